@@ -1,6 +1,7 @@
 import GenjaxModel.Proofs.GfiCohInv
 import GenjaxModel.Proofs.GfiAssess
 import GenjaxModel.Proofs.GfiWeight
+import GenjaxModel.Proofs.GfiAssessCond
 /-!
 # C02 — generate honours constraints and returns the proper importance weight
 (theorems about `GF.generate`, every program / constraint map / argument list / variant `cfg`)
@@ -17,7 +18,8 @@ theorem C02_generate_coherent (g : GF) (x : Option CM) (args : List Val) (t : Tr
 theorem C02_generate_none_weight (g : GF) (args : List Val) (t : Tr R) (w : R)
     (h : g.generate P cfg none args = some (t, w)) : w = 0 := generate_none_weight P cfg g args t w h
 
-/-- score = -assess(choices) for generated traces (`_partial`: Cond-free programs) -/
+/-- score = -assess(choices) for generated traces (`_partial`: Cond-free programs; superseded by
+    `C02_generate_score_assess` below) -/
 theorem C02_generate_score_assess_partial (g : GF) (hg : g.condFree = true) (x : Option CM)
     (args : List Val) (t : Tr R) (w : R) (h : g.generate P cfg x args = some (t, w)) :
     ∃ x', t.choices = some x' ∧ g.assess P x' args = some (-t.score, t.retval) := by
@@ -29,5 +31,32 @@ theorem C02_generate_score_assess_partial (g : GF) (hg : g.condFree = true) (x :
 theorem C02_vmap_generate_none_asis (g : GF) (n : Nat) (args : List Val) :
     (GF.vmap g [true] n).generate P Cfg.asis none args = none := by
   simp [GF.generate, Cfg.asis]
+
+/-- score = -assess(choices) and the program's return value for generated traces — every program
+    (Cond at any depth), every constraint map.  `hx'` = "`get_choices()` does not raise".
+    Supersedes `C02_generate_score_assess_partial`. -/
+theorem C02_generate_score_assess (g : GF) (x : Option CM) (args : List Val) (t : Tr R) (w : R)
+    (h : g.generate P cfg x args = some (t, w)) (x' : CM) (hx' : t.choices = some x') :
+    g.assess P x' args = some (-t.score, t.retval) :=
+  coh_assess P g args t (generate_coh P cfg g x args t w h) x' hx'
+
+/-- the generated trace's choice map has the program's static skeleton (exists iff that exists) -/
+theorem C02_generate_choices_skel (g : GF) (x : Option CM) (args : List Val) (t : Tr R) (w : R)
+    (h : g.generate P cfg x args = some (t, w)) : t.choices.map CM.skel = g.skel :=
+  generate_choices_skel P cfg g x args t w h
+
+/-- end to end for programs whose Cond branches are compatible -/
+theorem C02_generate_score_assess_compat (g : GF) (hs : g.skel.isSome) (x : Option CM)
+    (args : List Val) (t : Tr R) (w : R) (h : g.generate P cfg x args = some (t, w)) :
+    ∃ x', t.choices = some x' ∧ g.assess P x' args = some (-t.score, t.retval) := by
+  obtain ⟨x', hx'⟩ := choices_of_skel (generate_choices_skel P cfg g x args t w h) hs
+  exact ⟨x', hx', C02_generate_score_assess P cfg g x args t w h x' hx'⟩
+
+/-- non-vacuity: constraining `"x"` of the Cond program `condExG` (both branches share `"x"`) -/
+example : ∃ t w x', condExG.generate condExP Cfg.asis
+      (some (.node (.cons "x" (.leaf (.num 10)) .nil))) [.num 0, .num 7] = some (t, w) ∧
+    t.choices = some x' ∧ condExG.assess condExP x' [.num 0, .num 7] = some (-t.score, t.retval) ∧
+    w = 22 :=
+  ⟨_, _, _, rfl, rfl, rfl, rfl⟩
 
 end Genjax
